@@ -407,6 +407,105 @@ pub fn run(ctx: &Ctx) -> i32 {
         }
     });
     let mut ev = ev;
+    // a "query buffer session": ONE String is cleared and refilled with pattern after pattern (same address, often the same
+    // length), and a fresh Str / Subsequence is built over it each time - what an interactive search box does. Each automaton
+    // must behave like its own pattern, whatever was in the buffer before.
+    {
+        let r = guard(|| -> Result<u64, String> {
+            let sigma = [b'a', b'b', b'c'];
+            let mut patterns: Vec<String> = vec![];
+            for len in 1..=3usize {
+                let mut idx = vec![0usize; len];
+                loop {
+                    patterns.push(idx.iter().map(|&i| sigma[i] as char).collect());
+                    let mut p = len;
+                    while p > 0 {
+                        p -= 1;
+                        idx[p] += 1;
+                        if idx[p] < sigma.len() {
+                            break;
+                        }
+                        idx[p] = 0;
+                        if p == 0 {
+                            p = usize::MAX;
+                            break;
+                        }
+                    }
+                    if p == usize::MAX {
+                        break;
+                    }
+                }
+            }
+            for n in [64usize, 65, 130] {
+                patterns.push(format!("{}b", "a".repeat(n - 1)));
+                patterns.push(format!("b{}", "a".repeat(n - 1)));
+                patterns.push("ab".repeat(n)[..n].to_string());
+            }
+            // all inputs over the alphabet up to length 5, plus the patterns themselves and their neighbours
+            let mut inputs: Vec<Vec<u8>> = vec![vec![]];
+            let mut layer: Vec<Vec<u8>> = vec![vec![]];
+            for _ in 0..5 {
+                let mut next = vec![];
+                for w in &layer {
+                    for &c in &sigma {
+                        let mut t = w.clone();
+                        t.push(c);
+                        next.push(t);
+                    }
+                }
+                inputs.extend(next.iter().cloned());
+                layer = next;
+            }
+            for p in &patterns {
+                if p.len() > 5 {
+                    inputs.push(p.as_bytes().to_vec());
+                    let mut t = p.as_bytes().to_vec();
+                    t.insert(1, b'c');
+                    inputs.push(t);
+                    let mut t = p.as_bytes().to_vec();
+                    t.swap(0, p.len() - 1);
+                    inputs.push(t);
+                }
+            }
+            let mut buf = String::new();
+            let mut n = 0u64;
+            for round in 0..2 {
+                for (pi, p) in patterns.iter().enumerate() {
+                    buf.clear();
+                    buf.push_str(p);
+                    let spec_sub = SpecE::Subseq(p.clone());
+                    let spec_str = SpecE::Str(p.clone());
+                    let sub = fst::automaton::Subsequence::new(&buf);
+                    let st = fst::automaton::Str::new(&buf);
+                    for w in inputs.iter().filter(|w| w.len() <= 5 || w.len() == p.len() || w.len() == p.len() + 1) {
+                        let mut a = sub.start();
+                        let mut b2 = st.start();
+                        for &c in w.iter() {
+                            a = sub.accept(&a, c);
+                            b2 = st.accept(&b2, c);
+                        }
+                        n += 2;
+                        if sub.is_match(&a) != spec_sub.matches(w) {
+                            return Err(format!("query buffer session (round {}, pattern #{}): Subsequence({:?}) built over a re-used String says {} for {}", round, pi, p, sub.is_match(&a), crate::json::show_bytes(w)));
+                        }
+                        if st.is_match(&b2) != spec_str.matches(w) {
+                            return Err(format!("query buffer session (round {}, pattern #{}): Str({:?}) built over a re-used String says {} for {}", round, pi, p, st.is_match(&b2), crate::json::show_bytes(w)));
+                        }
+                    }
+                }
+            }
+            Ok(n)
+        });
+        match r {
+            Ok(Ok(n)) => {
+                ev.evaluations += n;
+                ev.distinct_extra += n / 2;
+                ev.add("history:automata-built-over-a-reused-query-buffer", n);
+            }
+            Ok(Err(e)) => ev.violate("language", e, J::s("query buffer session")),
+            Err(p) => ev.violate("automaton-panic", format!("query buffer session: {}", p), J::s("query buffer session")),
+        }
+    }
     ev.note("leaves", J::U(nleaves as u64));
     ev.note("expressions_total", J::U(nexprs as u64));
     let all_visited = ev.get("ref-states-total") == ev.get("ref-states-visited");
